@@ -118,7 +118,7 @@ func slimOf(s Stream) Stream {
 		for _, f := range so.Frames {
 			so.FrameLens = append(so.FrameLens, len(f))
 		}
-		so.Tap, so.Reads, so.Frames = nil, nil, nil
+		so.Tap, so.Reads, so.Frames, so.PerDest = nil, nil, nil, nil
 		s.Obs = &so
 	}
 	return s
@@ -135,6 +135,56 @@ func oracle(s Stream, idx int, res *lib.Result) {
 		return
 	}
 	input := genBytes(s.Seed, 0, s.total())
+	if s.Kind == "agg" {
+		// every destination subscribed to the stream gets the feed messages unmodified, forward, none twice;
+		// a subscribed destination that gets nothing at all is not being forwarded to
+		input = s.wsoutInput()
+		for d, got := range o.PerDest {
+			lastK := -1
+			for j, f := range got {
+				k := wsoutIndex(f)
+				switch {
+				case k < 0 || k >= s.Count || len(f) != s.Blk || !bytes.Equal(f, input[k*s.Blk:(k+1)*s.Blk]):
+					bad("not-the-message-sent", fmt.Sprintf("destination %d (%s): message %d received (%s) is not a feed message", d, s.DestKinds[d], j, short(f)))
+				case k <= lastK:
+					bad("repeat-or-backwards", fmt.Sprintf("destination %d (%s) received feed message %d (input offset %d) after feed message %d: repeated or backwards (it got %d messages for %d published)", d, s.DestKinds[d], k, k*s.Blk, lastK, len(got), s.Count))
+				}
+				if k > lastK {
+					lastK = k
+				}
+			}
+			if len(got) == 0 && s.Count >= 20 {
+				bad("subscribed-destination-received-nothing", fmt.Sprintf("destination %d (%s) sits on the stream and received none of the %d feed messages", d, s.DestKinds[d], s.Count))
+			}
+		}
+		return
+	}
+	if s.Kind == "wstext" {
+		// what the destination receives are the messages sent, byte for byte and with their type, in order
+		gi := 0
+		for j, f := range o.Frames {
+			found := false
+			for ; gi < len(s.Msgs); gi++ {
+				if bytes.Equal(s.Msgs[gi].Data, f) && (j >= len(o.RecvText) || o.RecvText[j] == s.Msgs[gi].Text) {
+					found = true
+					gi++
+					break
+				}
+			}
+			if !found {
+				typ := "binary"
+				if j < len(o.RecvText) && o.RecvText[j] {
+					typ = "text"
+				}
+				bad("not-the-message-sent", fmt.Sprintf("the destination received %s message %d = %x, which is none of the (remaining) messages sent", typ, j, f))
+				break
+			}
+		}
+		if len(o.Frames) == 0 {
+			bad("nothing-received", "the destination received nothing at all")
+		}
+		return
+	}
 	if s.Kind == "dest" {
 		// over all its connections the destination receives hub messages of the stream, unmodified, strictly
 		// forward, none twice; messages lost at a cut or dropped for the lagging path are allowed
@@ -301,6 +351,12 @@ func main() {
 			if i%23 == 11 {
 				kind = "dest"
 			}
+			if i%23 == 5 || i%23 == 17 {
+				kind = "agg"
+			}
+			if i%23 == 8 {
+				kind = "wstext"
+			}
 			streams = append(streams, genStream(r, kind, i))
 		}
 	}
@@ -347,6 +403,18 @@ func main() {
 		res.Count("streams:" + s.Kind)
 		res.CountN("bytes-posted", o.Posted)
 		res.CountN("hand-offs", len(o.Tap))
+		if s.Kind == "agg" {
+			res.Count("agg:order=" + s.Order)
+			for d, got := range o.PerDest {
+				res.Count("agg:destinations:" + s.DestKinds[d])
+				res.CountN("agg:messages-received", len(got))
+				res.CountN("agg:messages-missed", s.Count-len(got))
+			}
+		}
+		if s.Kind == "wstext" {
+			res.CountN("wstext:messages-sent", len(s.Msgs))
+			res.CountN("wstext:messages-received", len(o.Frames))
+		}
 		if s.Kind == "dest" {
 			res.CountN("dest:hub-messages", s.Count)
 			res.CountN("dest:messages-received", len(o.Frames))
